@@ -275,6 +275,78 @@ def _report(ctx, rule, results, oks):
             r.ok(rule, q, what, _where(repo, q), f"{n} interpreted evaluations")
 
 
+def _designed_case(repo, it, S, spec):
+    """translation is per codon position: the start rule applies to codon 0 only, every later codon - also a copy of the
+    first one, also another initiator of the table - reads through the standard code"""
+    table, first, other, sn = spec
+    coding = first + "GCT" + first + "AAA" + other + first + "TAA"
+    flank5, flank3 = "CC", "G"
+    plus = flank5 + coding + flank3
+    genome = plus if sn == "PLUS" else rc(plus)
+    a = len(flank5) if sn == "PLUS" else len(flank3)
+    exons = [(a, a + len(coding))]
+    par = chrom_parent(it, genome, alphabet="NT_EXTENDED")
+    out = []
+    n = 0
+    q = repo.fn(f"{CDS}.translate")
+    tt = it.enum("TranslationTable")[table]
+    # single exon, and the same CDS split inside the second copy of the first codon
+    for lay, frames in ((exons, [0]), ([(a, a + 7), (a + 7, a + len(coding))], None)):
+        if frames is None:
+            if sn == "PLUS":
+                frames = [0, 7 % 3]
+            else:
+                frames = [(len(coding) - 7) % 3, 0]
+        for trunc in (False, True):
+            n += 1
+            try:
+                cds = mk_cds(it, lay, S[sn], frames, par)
+                k, v = run(it, q, [], {"translation_table": tt, "truncate_at_in_frame_stop": trunc}, cds)
+            except Raised as ex:
+                k, v = "raise", ex.exc_name
+            wp = translate_ref(coding, table)
+            got = v.fields.get("sequence") if k == "ok" and isinstance(v, Obj) else v
+            if k != "ok" or got != wp:
+                out.append((f"translate {table} repeated initiator", f"coding sequence {coding} ({sn} strand, exons {lay}) translate(table={table}, "
+                            f"truncate_at_in_frame_stop={trunc}) -> {k}:{got}; start rule on codon 0 only gives {wp!r}", q.qual))
+    return n, out
+
+
+def rt_designed_translation(ctx):
+    specs = []
+    for table, starts in sorted(NCBI_STARTS.items()):
+        ss = sorted(starts)
+        for i, first in enumerate(ss):
+            other = ss[(i + 1) % len(ss)]
+            for sn in ("PLUS", "MINUS"):
+                specs.append((table, first, other, sn))
+        # a first codon that is not an initiator is read through the standard code, initiators later on as well
+        specs.append((table, "AAG", ss[0], "PLUS"))
+    ctx.r.floor("C05.RT", "designed coding sequences", len(specs), 20)
+    results = pmap(_runner(ctx.repo, _designed_case), specs, min_items=4)
+    _report(ctx, "C05.RT", results, [(f"{CDS}.translate", "start rule on codon 0 only, for every initiator of every table, both strands, "
+                                      "one- and two-exon layouts")])
+
+
+def rc_chunk_frames(ctx):
+    """frames generated for the chunk-relative view (construct_frames_from_location on the first on-chunk exon) describe
+    the same uninterrupted reading frame; evaluated by C07's chunk-twin kernel on plus- and minus-strand chunks, only
+    the frame answers are reported here"""
+    from . import c07
+    specs = []
+    for lay in c07.LAYOUTS[:4]:
+        for sn in ("PLUS", "MINUS"):
+            for start in (0, 1, 2):
+                for j, (cs, ce) in enumerate(c07._windows(lay, False)):
+                    if ctx.thorough or (j + start) % 2 == 0:
+                        specs.append((lay, sn, start, cs, ce, "MINUS" if (j // 2) % 2 else "PLUS"))
+    ctx.r.floor("C05.RC", "chunk frame cases", len(specs), 150)
+    results = pmap(_runner(ctx.repo, c07._cds_case), specs)
+    results = [(n, [o for o in outs if o[0].startswith("chunk frames") or o[0] == "uninterpretable"]) for n, outs in results]
+    _report(ctx, "C05.RC", results, [(f"{CDS}.chunk_relative_frames", "frames of the chunk-relative blocks continue the reading frame of the "
+                                      "whole CDS (plus- and minus-strand chunks)")])
+
+
 def cds_layouts(thorough):
     for ne in ([1, 2, 3] if thorough else [1, 2]):
         for lay in _exon_layouts(ne):
@@ -319,5 +391,7 @@ def r1_shift(ctx):
 RULES = [
     ("C05.RK", rk_interpreted),
     ("C05.RF", rf_frames),
+    ("C05.RT", rt_designed_translation),
+    ("C05.RC", rc_chunk_frames),
     ("C05.R1", r1_shift),
 ]
